@@ -145,7 +145,8 @@ def run_unit(u):
                     # (case, exact missing set) fingerprints count; in the seeded random scope
                     # the structural predicate "the grammar has an empty production"
                     if spec.exhaustive:
-                        v["fingerprint"] = h16(["F-GLR-2", gtxt, tname, case["input"], sorted(map(repr, missing))])
+                        v["fingerprint"] = h16(["F-GLR-2", gtxt, tname, strip_layout(case["input"]),
+                                                canon_keys(missing, case["input"])])
                     elif "nullable" in feats:
                         v["attribution"] = "glr-nullable-loss"
                     res["violations"].append(v)
